@@ -333,7 +333,9 @@ func (c *fsClient) distinctIdx(st *State, a, b *Term) bool {
 		}
 	}
 	// pivot: a < c <= b  or  b < c <= a ; a > c >= b or b > c >= a
-	for k, v := range st.facts {
+	for _, k := range sortedFactKeys(st) {
+		v := st.facts[k]
+		_ = v
 		t := st.fterm[k]
 		if t.Op != "lt" {
 			continue
@@ -380,7 +382,7 @@ func (c *fsClient) nameEq(st *State, a, b *Term) int {
 	// for every member of that list
 	for _, pair := range [][2]*Term{{a, b}, {b, a}} {
 		m, o := pair[0], pair[1]
-		for k := range st.facts {
+		for _, k := range sortedFactKeys(st) {
 			t := st.fterm[k]
 			if t.Op != "eq" {
 				continue
@@ -427,7 +429,9 @@ func (c *fsClient) loopDone(st *State, idx *Term) bool {
 
 func (c *fsClient) classOf(st *State, a *Term) []*Term {
 	cl := []*Term{a}
-	for k, v := range st.facts {
+	for _, k := range sortedFactKeys(st) {
+		v := st.facts[k]
+		_ = v
 		if !v {
 			continue
 		}
@@ -1073,7 +1077,9 @@ func (c *fsClient) removeTable(x *Exec, st *State, fr *Frame, site ssa.CallInstr
 		// LOCK-OWN for garbage collection: a directory entry is removed only on a
 		// path that established a suffix which a lock file cannot have
 		suffix := ""
-		for k, v := range st.facts {
+		for _, k := range sortedFactKeys(st) {
+			v := st.facts[k]
+			_ = v
 			t := st.fterm[k]
 			if !v || t == nil || t.Op != "pure" || t.Aux != "strings.HasSuffix" || len(t.Args) != 2 {
 				continue
